@@ -943,6 +943,8 @@ class VirtualTwoQubitVacant(TwoQubitOperation, ICircuitOperation):
             control_qubit_index=self.control_qubit_index,
             target_qubit_index=self.target_qubit_index,
             relation=self.relation.copy(relation_transfer_lookup=relation_transfer_lookup),
+            duration_strategy=self.duration_strategy,
+            qubit_channel=self.qubit_channel,
         )
     # endregion
 
